@@ -92,6 +92,14 @@ class Alloc:
         self.scripts = []
         self.mgrs = []
         self.msgs = []
+        self.hcs = []
+
+    def hc(self, class_names):
+        """a rebindable global class name HCk; its (non-empty) script lists the classes it is bound to, in turn (cyclically)"""
+        self.k += 1
+        self.scripts.append([self.k, [(CLASS_IDS[n] + 1 if n is not None else 0) for n in class_names]])
+        self.hcs.append(self.k)
+        return self.k
 
     def msg(self, raises=None):
         self.k += 1
@@ -114,7 +122,7 @@ class Alloc:
         return self.k
 
     def case(self, body, **extra):
-        c = {"body": body, "scripts": self.scripts, "mgrs": self.mgrs, "msgs": self.msgs}
+        c = {"body": body, "scripts": self.scripts, "mgrs": self.mgrs, "msgs": self.msgs, "hcs": self.hcs}
         c.update(extra)
         return c
 
@@ -242,6 +250,40 @@ def _frames():
     def _(a, H, nm):
         return [["func", a.site(), _hole(a, H)]]
 
+    # --- a jump pending while a finally clause / a script-defined __exit__ runs more script code
+    @add("tryfin/final,ret-pending")
+    def _(a, H, nm):
+        return [["try", [a.T(), ["return", 5]], [], [], _hole(a, H)]]
+
+    @add("teef/final,ret-in-handler")
+    def _(a, H, nm):
+        return [["try", [a.T(), ["raise", "EB", None]], [[["EA"], None, [a.T(), ["return", 5]]]], [a.T()], _hole(a, H)]]
+
+    @add("withs/body")
+    def _(a, H, nm):
+        return [["withs", a.site(), [a.T(), ["return", 0]], _hole(a, H)]]
+
+    @add("withs/exit,ret-pending")
+    def _(a, H, nm):
+        return [["withs", a.site(), _hole(a, H), [a.T(), ["return", 5]]]]
+
+    @add("withs/exit,exc")
+    def _(a, H, nm):
+        return [["withs", a.site(), _hole(a, H), [a.T(), ["raise", "EB", None]]]]
+
+    # --- the same try statement executed twice while the class named by its except clause is rebound in between
+    @add("loop-tryvar/first-then-second")
+    def _(a, H, nm):
+        j = a.hc(["EA", "EC"])
+        return [["for", a.site([1, 1]), [["try", _hole(a, H), [[{"var": j, "cs": []}, None, [a.T()]], [["EA"], None, [a.T()]]], [], []],
+                                         a.T(), ["sw", j]], []]]
+
+    @add("loop-tryvar/second-then-first")
+    def _(a, H, nm):
+        j = a.hc(["EC", "EA"])
+        return [["while", a.site([1, 1]), [["try", _hole(a, H), [[{"var": j, "cs": ["KeyError"]}, None, [a.T()]], [["EA"], None, [a.T()]]], [], []],
+                                           a.T(), ["sw", j]], []]]
+
     return fr
 
 
@@ -293,6 +335,8 @@ def supp(s, inl):
         return all(supp(x, inl) for x in s[2])
     if op == "func":
         return all(supp(x, False) for x in s[2])
+    if op == "withs":
+        return all(supp(x, False) for x in s[2]) and all(supp(x, inl) for x in s[3])
     return True
 
 
@@ -310,7 +354,7 @@ def path_case(path, jump):
     names = []
     for d, fi in enumerate(path):
         names.append(10 * scope + 1 + d % 2)
-        if FRAMES[fi][0] == "func":
+        if FRAMES[fi][0] == "func" or FRAMES[fi][0].startswith("withs/exit"):
             scope += 1
     for d in range(len(path) - 1, -1, -1):
         H = FRAMES[path[d]][1](a, H, names[d])
@@ -338,6 +382,8 @@ class RandGen:
         self.maxdepth = maxdepth
         self.left = rng.choice([2, 3, 4, 6, 8, 12])      # compound statements still allowed
         self.scope_ctr = 0
+        self.hc_sites = [self.a.hc([rng.choice(["EA", "EB", "EC", "Exception", "BX"]) for _ in range(rng.choice([1, 2, 2, 3]))])
+                         for _ in range(rng.choice([0, 1, 1, 2]))]
 
     def script(self, loopdepth):
         n = self.rng.choice([0, 1, 1, 2, 2, 3]) if loopdepth < 2 else self.rng.choice([0, 1, 1, 2])
@@ -367,7 +413,7 @@ class RandGen:
         if r < 0.28 and inl:
             return [["continue"]]
         if r < 0.40:
-            return [["return", rng.choice([None, 3, 7])]]
+            return [["return", rng.choice([None, 0, 3, 7])]]
         if r < 0.58:
             cause = rng.choice(["EC", "EA"]) if rng.random() < 0.2 else None
             return [["raise", rng.choice(RAISE_CLASSES), cause]]
@@ -382,6 +428,8 @@ class RandGen:
             return [["probe", self.a.site(), 10 * scope + rng.choice([1, 2])]]
         if r < 0.92:
             return [["pass"]]
+        if self.hc_sites:
+            return [["sw", rng.choice(self.hc_sites)]]
         return []
 
     def stmt(self, depth, inl, loopdepth, scope):
@@ -390,7 +438,7 @@ class RandGen:
             return self.simple(inl, scope)
         self.left -= 1
         d = depth + 1
-        kind = rng.choice(["if", "if", "for", "while", "try", "try", "try", "with", "with", "func"])
+        kind = rng.choice(["if", "if", "for", "while", "try", "try", "try", "with", "with", "func", "withs"])
         if (kind in ("for", "while")) and loopdepth >= 3:
             kind = "try"
         a = self.a
@@ -410,6 +458,8 @@ class RandGen:
             for i in range(nh):
                 if i == nh - 1 and rng.random() < 0.15:
                     m = None
+                elif self.hc_sites and rng.random() < 0.3:
+                    m = {"var": rng.choice(self.hc_sites), "cs": [rng.choice(MATCH_CLASSES)] if rng.random() < 0.3 else []}
                 elif rng.random() < 0.25:
                     m = rng.sample(MATCH_CLASSES, 2)
                 else:
@@ -427,6 +477,9 @@ class RandGen:
                 items.append(a.mgr(enter, exit_))
             return [["with", items, self.block(d, inl, loopdepth, scope)]]
         self.scope_ctr += 1
+        if kind == "withs":
+            xbody = self.block(d, False, 0, self.scope_ctr, 1, 2)
+            return [["withs", a.site(), xbody, self.block(d, inl, loopdepth, scope)]]
         return [["func", a.site(), self.block(d, False, 0, self.scope_ctr)]]
 
 
@@ -448,6 +501,8 @@ def depth_of(stmts):
             subs = [s[1], s[3], s[4]] + [h[2] for h in s[2]]
         elif op in ("with", "func"):
             subs = [s[2]]
+        elif op == "withs":
+            subs = [s[2], s[3]]
         if subs:
             best = max(best, 1 + max(depth_of(b) for b in subs))
     return best
@@ -470,6 +525,10 @@ def constructs_of(stmts, acc):
         elif op == "func":
             acc.add("func")
             constructs_of(s[2], acc)
+        elif op == "withs":
+            acc.add("with-script-manager")
+            constructs_of(s[2], acc)
+            constructs_of(s[3], acc)
         elif op != "t":
             acc.add(op)
     return acc
@@ -528,7 +587,10 @@ def _q_stmt(s):
     if op == "try":
         hs = []
         for m, name, hb in s[2]:
-            mm = "MAny" if m is None else f"(MCls {_lst(_cls(c) for c in m)})"
+            if isinstance(m, dict):
+                mm = f"(MVar {_lst(_cls(c) for c in m['cs'])} {_n(m['var'])})"
+            else:
+                mm = "MAny" if m is None else f"(MCls {_lst(_cls(c) for c in m)})"
             hs.append(f"({mm}, {q.option(_n(name) if name is not None else None)}, {_q_block(hb)})")
         return f"(STry {_q_block(s[1])} {_lst(hs)} {_q_block(s[3])} {_q_block(s[4])})"
     if op == "with":
@@ -538,6 +600,10 @@ def _q_stmt(s):
         return f"(SAssert {_n(s[1])} {q.option(_n(msg) if msg is not None else None)})"
     if op == "func":
         return f"(SFunc {_n(s[1])} {_q_block(s[2])})"
+    if op == "sw":
+        return f"(SSwitch {_n(s[1])})"
+    if op == "withs":
+        return f"(SWithS {_n(s[1])} {_q_block(s[2])} {_q_block(s[3])})"
     raise ValueError(s)
 
 
@@ -567,6 +633,8 @@ def _q_event(e):
         return f"(EvP {_n(e[1])} {_n(e[2])} {_q_oexc(e[3], e[4])})"
     if op == "msg":
         return f"(EvMsg {_n(e[1])})"
+    if op == "sw":
+        return f"(EvSw {_n(e[1])})"
     if op == "ret":
         v = e[2]
         return f"(EvRet {_n(e[1])} {q.option(_n(v) if isinstance(v, int) else (None if v is None else _n(98)))})"
@@ -599,11 +667,14 @@ def _q_mgr(m):
 
 class FlowStream(Stream):
     name = "flow"
-    rule = ("control-flow skeletons wrapped in a function: (a) every path of 1..d frames out of 26 "
+    rule = ("control-flow skeletons wrapped in a function: (a) every path of 1..d frames out of 33 "
             "(if body/else; for, for-else, while, while-else body/else; try-except body with first/second/no handler matching, "
             "inside first/second handler; try-finally body/finally (normal and during an exception); try-except-else-finally "
             "body/handler/else/finally; with 1 manager keep/suppress; with 2 managers keep,keep/suppress,keep/keep,suppress; "
-            "function boundary) ending in each of {break, continue, return, raise, fall-through} (plus bare re-raise, raise-from, "
+            "function boundary; a return pending (from the try body / from a handler) while the finally clause runs; a manager class written "
+            "in the script: with-body, and its __exit__ body - a function body - running while a return / an exception is pending; the same "
+            "try statement executed twice in a loop while sw(k) rebinds the global class name HCk of its first except clause, first-then-"
+            "second and second-then-first handler) ending in each of {break, continue, return, raise, fall-through} (plus bare re-raise, raise-from, "
             "raise of a BaseException, failing assert, and asserts with a message expression ms(j) that logs and may raise - passing "
             "(message must not be evaluated), failing, failing with a raising message - for d=1 and, in thorough, d=2; bare re-raise, "
             "BaseException and the passing assert-with-message for d=2 in quick), "
@@ -623,7 +694,7 @@ class FlowStream(Stream):
     coqc_timeout = 1500      # a shard needs ~5 s of CPU; the margin is for a heavily shared machine
 
     def budget(self, tier):
-        return 6200 if tier == "quick" else 84000
+        return 9200 if tier == "quick" else 156000
 
     def prelude(self, ctx, findings, witness_terms):
         ct = q.lst(f"({q.N(cid)}, {q.lst(q.N(x) for x in anc)})" for cid, anc in class_table())
@@ -657,7 +728,7 @@ class FlowStream(Stream):
         return cases
 
     def run_impl(self, ctx, cases):
-        slim = [{"body": c["body"], "scripts": c["scripts"], "mgrs": c["mgrs"], "msgs": c.get("msgs", [])} for c in cases]
+        slim = [{"body": c["body"], "scripts": c["scripts"], "mgrs": c["mgrs"], "msgs": c.get("msgs", []), "hcs": c.get("hcs", [])} for c in cases]
         nproc = 16 if len(slim) > 20000 else 8 if len(slim) > 400 else 2
         chunks = split_chunks(slim, nproc)
         res = run_workers_parallel(ctx, "vh.workers.c02_flow", [{"cases": c} for c in chunks])
